@@ -365,6 +365,24 @@ func (c *Check) respondRules(prefix string) {
 	c.req(nOK >= 2, prefix+".respond.paths", unitConstruct(f, "accepted-paths"), f.Body.Pos(), fmt.Sprintf("%d accepting paths analysed", nOK))
 }
 
+// loopsDeleting: the loop statements of f in which some path performs a deletion from the given family.
+func (c *Check) loopsDeleting(f *Func, fam string) map[ast.Node]bool {
+	out := map[ast.Node]bool{}
+	for _, pa := range c.P.PathsOf(f) {
+		for _, ev := range pa.Events {
+			if ev.Kind != EvCall || ev.Loop == nil {
+				continue
+			}
+			for _, e := range c.P.effectsOfEvent(f, ev) {
+				if e.Kind == "store" && e.Op == "Delete" && e.Family == fam {
+					out[ev.Loop] = true
+				}
+			}
+		}
+	}
+	return out
+}
+
 // expiredRequestRules: C02.5, C08.4, C01.6/7 at expiry.
 func (c *Check) expiredRequestRules(prefix string) {
 	u := c.feeUnits(prefix)
@@ -729,13 +747,34 @@ func (c *Check) withdrawRules(prefix string) {
 			}
 			// provider records of every provider of the owner (when the scan yields one): a path that enters the scan's loop
 			// deletes the records of the provider it found (none is skipped: what was paid is the total over all of them)
-			entered := false
+			// (the loop is the one in which some path deletes earnings records; a provider is legitimately passed over where the
+			// path has found that it has no record — a negative answer of a function that reads the earnings family)
+			delLoops := c.loopsDeleting(f, "0x18")
+			entered, deleted, nothingThere := false, false, false
 			for _, ev := range pa.Events {
-				if ev.Kind == EvLoop {
+				switch {
+				case ev.Kind == EvLoop && delLoops[ev.Node]:
 					entered = true
+				case ev.Kind == EvCall && ev.Loop != nil && delLoops[ev.Loop]:
+					for _, e := range c.P.effectsOfEvent(f, ev) {
+						if e.Kind == "store" && e.Op == "Delete" && e.Family == "0x18" {
+							deleted = true
+						}
+					}
+				case ev.Kind == EvFact && ev.Fact.Neg:
+					ev.Fact.T.Walk(func(t *Term) bool {
+						if g := c.P.FuncNamed(t.Op); g != nil && g.Body != nil && g.isHandWritten() {
+							for _, e := range c.P.SummaryOf(g).Effs {
+								if e.Kind == "store" && e.Family == "0x18" && (e.Op == "Iter" || e.Op == "Has" || e.Op == "Get") {
+									nothingThere = true
+								}
+							}
+						}
+						return true
+					})
 				}
 			}
-			if entered && len(del18) == 0 {
+			if entered && !deleted && !nothingThere {
 				add("owner-reset", "a provider found by the scan of the owner's providers keeps its earnings records", pa)
 			}
 			for _, d := range del18 {
